@@ -21,6 +21,9 @@ var solvers = []solverSpec{
 	{"z3-new", []string{"z3-new", "-smt2"}},
 	{"cvc5", []string{"cvc5", "--lang=smt2", "--strings-exp", "--arrays-exp"}},
 	{"z3", []string{"z3", "-smt2"}},
+	// z3 5.1 without its automatic configuration: a different tactic pipeline, which decides quantified goals over
+	// string-keyed maps in milliseconds where the default configuration runs out of time
+	{"z3-new/plain", []string{"z3-new", "-smt2", "smt.auto_config=false"}},
 }
 
 type solveOpts struct {
@@ -38,7 +41,7 @@ func runSolver(sp solverSpec, file string, timeout time.Duration, seed int) (str
 	args := append([]string{}, sp.args[1:]...)
 	if seed != 0 {
 		switch sp.name {
-		case "z3", "z3-new":
+		case "z3", "z3-new", "z3-new/plain":
 			args = append(args, fmt.Sprintf("smt.random_seed=%d", seed), fmt.Sprintf("sat.random_seed=%d", seed))
 		case "cvc5":
 			args = append(args, fmt.Sprintf("--seed=%d", seed))
@@ -132,9 +135,40 @@ func Solve(o *Obligation, opts solveOpts) {
 	var total time.Duration
 	agree := 0
 	o.Status = "unknown"
-	for _, sp := range solvers {
-		st, out, el := runSolver(sp, file, opts.timeout, opts.seed)
+	// first a short slice for every back end (most goals are decided in milliseconds by at least one of them), then
+	// the full time for those that ran out of it
+	type attempt struct {
+		sp solverSpec
+		to time.Duration
+	}
+	var plan []attempt
+	short := opts.timeout / 4
+	if short < 2*time.Second {
+		short = 2 * time.Second
+	}
+	if opts.all || short >= opts.timeout {
+		for _, sp := range solvers {
+			plan = append(plan, attempt{sp, opts.timeout})
+		}
+	} else {
+		for _, sp := range solvers {
+			plan = append(plan, attempt{sp, short})
+		}
+		for _, sp := range solvers {
+			plan = append(plan, attempt{sp, opts.timeout})
+		}
+	}
+	gaveUp := map[string]bool{}
+	for i, at := range plan {
+		sp := at.sp
+		if i >= len(solvers) && !opts.all && gaveUp[sp.name] {
+			continue // answered `unknown` before its time was up: more time will not help
+		}
+		st, out, el := runSolver(sp, file, at.to, opts.seed)
 		total += el
+		if st == "unknown" {
+			gaveUp[sp.name] = true
+		}
 		if st == "error" {
 			if o.Status == "unknown" {
 				o.Status = "error"
